@@ -47,6 +47,8 @@ GEN = {
                   '\tif 0\n\tnop\n\tendif\n\tld d,8\n\tlisting noskipped\n\tif 0\n\tnop\n\telse\n\tld e,9\n\tendif\n\tlisting on\nw\tequ 1234h\n\tld h,10\n\tshared w\n', {}),
     # float symbols: the symbol table must show the value, to the digits it prints
     'g_floats': ('\tcpu 8086\n' + ''.join('f%d\tequ %s\n' % (i, v) for i, v in enumerate(FLOATS)) + '\tdb 1\n', {}),
+    # every emitting line lays down its own line number (include file: 100 + line): what a MAP entry calls line n holds the byte n
+    'g_lineno': ('\tcpu 6502\n\torg $1000\n\tbyt 3\n\trept 2\n\tinclude "ln.inc"\n\tbyt 6\n\tendm\n\tbyt 8\n\tirp q,1,2\n\tinclude "ln.inc"\n\tendm\n\tbyt 12\n\tirpc c,"ab"\n\tinclude "ln.inc"\n\tbyt 15\n\tendm\n\tbyt 17\n\tbyt 18\n\twhile 0\n\tendm\n\tbyt 21\n\tinclude "ln.inc"\n\tbyt 23\n', {'ln.inc': '\tbyt 101\n\tbyt 102\n'}),
     'g_c30': ('\tcpu 320c30\n\torg 100h\nx:\tword 1,2,3\n\tldi r0,r1\n\tshared x\n', {}),
 }
 SHARE = {'c': ['-c'], 'p': ['-p'], 'a': ['-a'], 'ch': ['-c', '-h'], 'ph': ['-p', '-h'], 'ah': ['-a', '-h']}      # -h: hexadecimal digits in lower case
@@ -370,6 +372,30 @@ def evaluate(case):
                     phased = [c for c in chunks if (c['seg'], c['file'], c['line'], c['pc'] + c['ph']) == key]
                     return core.R(False, 'map-entry', 'map/line-address/%s' % ('execution-address' if phased else 'no-such-chunk'),
                                   'MAP entry %d:%08X (segment %s, file %s) names no chunk start on %s' % (key[2], key[3], seg, fn, desc))
+    if t == 'g_lineno':
+        seg = fn = None
+        mem = {}
+        for c in chunks:
+            if c['seg'] == 1:
+                for i, b in enumerate(c['data']):
+                    mem[c['pc'] + i] = b
+        for l in mp.split('\n'):
+            m = re.match(r'^Segment (\S+)', l)
+            if m:
+                seg = m.group(1)
+                continue
+            m = re.match(r'^File (.*)$', l)
+            if m:
+                fn = os.path.basename(m.group(1).strip())
+                continue
+            if l.startswith('Symbols in Segment'):
+                break
+            if seg == 'CODE' and fn:
+                for mm in re.finditer(r'(\d+):([0-9A-Fa-f]{8})', l):
+                    ln, ad = int(mm.group(1)), int(mm.group(2), 16)
+                    want = ln + (100 if fn == 'ln.inc' else 0)
+                    if mem.get(ad) != want:
+                        return core.R(False, 'map-entry', 'map/line-number-of-another-line', 'MAP entry %d:%08X of %s: the byte there is %s, line %d lays down %d on %s' % (ln, ad, fn, mem.get(ad), ln, want, desc))
     # (D) symbol values: listing table vs MAP symbol section vs share file
     symmap = {}
     for m in re.finditer(r'^(\S+)\s+Int\s+([0-9A-Fa-f]+)\s', mp, re.M):
